@@ -942,3 +942,193 @@ Proof.
   pose proof (ends_number_after w2 [] H2 I) as En. rewrite app_nil_r in En.
   rewrite Q by (try exact En; rewrite !app_length; lia). cbn [bind]. rewrite (skip_complete_end w2 H2). reflexivity.
 Qed.
+
+(* ================================================================== soundness for values *)
+Lemma expect_sound lit : forall bs r, expect lit bs = Some r -> bs = lit ++ r.
+Proof.
+  induction lit as [|c lit IH]; intros bs r H; cbn [expect] in H; [injection H as ->; reflexivity|].
+  destruct bs as [|b bs]; [discriminate H|]. destruct (b =? c) eqn:E; [|discriminate H]. apply N.eqb_eq in E. subst b.
+  cbn [app]. f_equal. apply IH. exact H.
+Qed.
+
+(* what follows an element inside an array, up to the closing bracket: insignificant bytes, then nothing or a comma and more elements *)
+Inductive arr_tail : list N -> list value -> Prop :=
+| at_end w : jws w -> arr_tail w []
+| at_more w ts l : jws w -> jelements ts l -> arr_tail (w ++ 44 :: ts) l.
+Lemma elements_of_tail w1 t v X l : jws w1 -> jvalue t v -> arr_tail X l -> jelements (w1 ++ t ++ X) (v :: l).
+Proof.
+  intros H1 Hv [w Hw|w ts l0 Hw Hl].
+  - apply Es_one. apply Elem; assumption.
+  - replace (w1 ++ t ++ w ++ 44 :: ts) with ((w1 ++ t ++ w) ++ 44 :: ts) by (rewrite <- !app_assoc; reflexivity).
+    apply Es_cons; [apply Elem; assumption|exact Hl].
+Qed.
+Inductive obj_tail : list N -> list (list N * value) -> Prop :=
+| ot_end w : jws w -> obj_tail w []
+| ot_more w ts ms : jws w -> jmembers ts ms -> obj_tail (w ++ 44 :: ts) ms.
+Lemma members_of_tail tk k w3 t v X ms : jkey tk k -> jws w3 -> jvalue t v -> obj_tail X ms ->
+  jmembers (tk ++ 58 :: w3 ++ t ++ X) ((k, v) :: ms).
+Proof.
+  intros Hk H3 Hv [w Hw|w ts ms0 Hw Hm].
+  - apply Ms_one; [exact Hk|apply Elem; assumption].
+  - replace (tk ++ 58 :: w3 ++ t ++ w ++ 44 :: ts) with (tk ++ 58 :: (w3 ++ t ++ w) ++ 44 :: ts) by (rewrite <- !app_assoc; reflexivity).
+    apply Ms_cons; [exact Hk|apply Elem; assumption|exact Hm].
+Qed.
+
+(* the element parser only reads values of the grammar *)
+Definition SV (pv : list N -> res (value * list N)) : Prop :=
+  forall bs v rest, pv bs = Ok (v, rest) -> exists w t, bs = w ++ t ++ rest /\ jws w /\ jvalue t v.
+
+Lemma members_prepend w X ms : jws w -> jmembers X ms -> jmembers (w ++ X) ms.
+Proof.
+  intros Hw [tk k tv v Hk He|tk k tv v ts ms0 Hk He Hm]; destruct Hk as [w1 t k w2 H1 Hs H2].
+  - replace (w ++ (w1 ++ t ++ w2) ++ 58 :: tv) with (((w ++ w1) ++ t ++ w2) ++ 58 :: tv) by (rewrite <- !app_assoc; reflexivity).
+    apply Ms_one; [apply Key; [apply jws_app; assumption|exact Hs|exact H2]|exact He].
+  - replace (w ++ (w1 ++ t ++ w2) ++ 58 :: tv ++ 44 :: ts) with (((w ++ w1) ++ t ++ w2) ++ 58 :: tv ++ 44 :: ts) by (rewrite <- !app_assoc; reflexivity).
+    apply Ms_cons; [apply Key; [apply jws_app; assumption|exact Hs|exact H2]|exact He|exact Hm].
+Qed.
+
+Section LoopSound.
+  Variable pv : list N -> res (value * list N).
+  Hypothesis Hpv : SV pv.
+
+  Lemma arr_loop_sound_false k : forall acc bs v rest, arr_loop pv k false acc bs = Ok (v, rest) ->
+    exists X l, bs = X ++ 93 :: rest /\ arr_tail X l /\ v = VArr (rev acc ++ l).
+  Proof.
+    induction k as [|k IH]; intros acc bs v rest H; cbn [arr_loop] in H; [discriminate H|].
+    destruct (skip_sound bs) as (w & Ebs & Hw). destruct (skip_unused bs) as [|c r]; [discriminate H|].
+    destruct (c =? 93) eqn:E93.
+    - apply N.eqb_eq in E93. subst c. injection H as <- <-. exists w, []. rewrite app_nil_r. repeat split; [exact Ebs|constructor; exact Hw].
+    - destruct (c =? 44) eqn:E44; [|discriminate H]. apply N.eqb_eq in E44. subst c.
+      destruct (pv r) as [[v1 bs'']| |] eqn:P; try discriminate H. cbn [bind] in H.
+      destruct (Hpv _ _ _ P) as (w1 & t & -> & H1 & Hv).
+      destruct (IH _ _ _ _ H) as (X & l & -> & HX & ->).
+      exists (w ++ 44 :: w1 ++ t ++ X), (v1 :: l).
+      split; [rewrite Ebs, <- !app_assoc; cbn [app]; rewrite <- !app_assoc; reflexivity|].
+      split; [apply at_more; [exact Hw|apply elements_of_tail; assumption]|]. cbn [rev]. rewrite <- app_assoc. reflexivity.
+  Qed.
+  Lemma arr_loop_sound_true k acc bs v rest : arr_loop pv k true acc bs = Ok (v, rest) ->
+    exists X, bs = X ++ 93 :: rest /\ ((jws X /\ v = VArr (rev acc)) \/ exists l, jelements X l /\ v = VArr (rev acc ++ l)).
+  Proof.
+    destruct k as [|k]; intros H; cbn [arr_loop] in H; [discriminate H|].
+    destruct (skip_sound bs) as (w & Ebs & Hw). destruct (skip_unused bs) as [|c r]; [discriminate H|].
+    destruct (c =? 93) eqn:E93.
+    - apply N.eqb_eq in E93. subst c. injection H as <- <-. exists w. split; [exact Ebs|left; auto].
+    - destruct (pv (c :: r)) as [[v1 bs'']| |] eqn:P; try discriminate H. cbn [bind] in H.
+      destruct (Hpv _ _ _ P) as (w1 & t & E & H1 & Hv).
+      destruct (arr_loop_sound_false _ _ _ _ _ H) as (X & l & -> & HX & ->).
+      exists ((w ++ w1) ++ t ++ X). split; [rewrite Ebs, E, <- !app_assoc; reflexivity|]. right. exists (v1 :: l).
+      split; [apply elements_of_tail; [apply jws_app; assumption|exact Hv|exact HX]|]. cbn [rev]. rewrite <- app_assoc. reflexivity.
+  Qed.
+
+  (* one member and the rest of the loop *)
+  Definition member_body (k' : nat) (acc : list (list N * value)) (bs' : list N) : res (value * list N) :=
+    do (key, bs1) <- pv bs';
+    match key with
+    | VStr ks =>
+        match skip_unused bs1 with
+        | 58 :: bs2 => do (v, bs3) <- pv bs2; obj_loop pv k' false (assoc_insert ks v acc) bs3
+        | _ => Err EOther
+        end
+    | _ => Err EOther
+    end.
+  Lemma obj_loop_eq k' first acc bs :
+    obj_loop pv (S k') first acc bs =
+    match skip_unused bs with
+    | [] => Err EOther
+    | c :: r =>
+        if c =? 125 then Ok (VObj acc, r)
+        else match (if first then Some (c :: r) else if c =? 44 then Some r else None) with
+             | None => Err EOther
+             | Some bs' => member_body k' acc bs'
+             end
+    end.
+  Proof. reflexivity. Qed.
+
+  Definition obj_false_sound (k : nat) : Prop := forall acc bs v rest, obj_loop pv k false acc bs = Ok (v, rest) ->
+    exists X ms, bs = X ++ 125 :: rest /\ obj_tail X ms /\ v = VObj (fold_left ins ms acc).
+  Lemma member_sound k' acc bs' v rest : obj_false_sound k' -> member_body k' acc bs' = Ok (v, rest) ->
+    exists X ms, bs' = X ++ 125 :: rest /\ jmembers X ms /\ v = VObj (fold_left ins ms acc).
+  Proof.
+    intros IH H. unfold member_body in H.
+    destruct (pv bs') as [[key bs1]| |] eqn:P; try discriminate H. cbn [bind] in H.
+    destruct key as [| |ks| | |]; try discriminate H.
+    destruct (Hpv _ _ _ P) as (w1 & tk & -> & H1 & Hk). inversion Hk as [| | | |t0 s0 Hs| | | |]; subst.
+    destruct (skip_sound bs1) as (w2 & E1 & H2). destruct (skip_unused bs1) as [|c2 bs2]; [discriminate H|].
+    destruct c2 as [|p]; [discriminate H|]. do 6 (destruct p as [p|p|]; try discriminate H).
+    destruct (pv bs2) as [[v1 bs3]| |] eqn:P2; try discriminate H. cbn [bind] in H.
+    destruct (Hpv _ _ _ P2) as (w3 & t & -> & H3 & Hv).
+    destruct (IH _ _ _ _ H) as (X & ms & -> & HX & ->).
+    exists ((w1 ++ tk ++ w2) ++ 58 :: w3 ++ t ++ X), ((ks, v1) :: ms).
+    split; [rewrite E1, <- !app_assoc; cbn [app]; rewrite <- !app_assoc; reflexivity|].
+    split; [apply members_of_tail; [apply Key; assumption|exact H3|exact Hv|exact HX]|reflexivity].
+  Qed.
+  Lemma obj_loop_sound_false k : obj_false_sound k.
+  Proof.
+    induction k as [|k IH]; intros acc bs v rest H; [discriminate H|]. rewrite obj_loop_eq in H.
+    destruct (skip_sound bs) as (w & Ebs & Hw). destruct (skip_unused bs) as [|c r]; [discriminate H|].
+    destruct (c =? 125) eqn:E125.
+    - apply N.eqb_eq in E125. subst c. injection H as <- <-. exists w, []. repeat split; [exact Ebs|constructor; exact Hw].
+    - destruct (c =? 44) eqn:E44; [|discriminate H]. apply N.eqb_eq in E44. subst c.
+      destruct (member_sound _ _ _ _ _ IH H) as (X & ms & -> & Hm & ->).
+      exists (w ++ 44 :: X), ms. split; [rewrite Ebs, <- app_assoc; reflexivity|]. split; [apply ot_more; assumption|reflexivity].
+  Qed.
+  Lemma obj_loop_sound_true k acc bs v rest : obj_loop pv k true acc bs = Ok (v, rest) ->
+    exists X, bs = X ++ 125 :: rest /\ ((jws X /\ v = VObj acc) \/ exists ms, jmembers X ms /\ v = VObj (fold_left ins ms acc)).
+  Proof.
+    destruct k as [|k]; intros H; [discriminate H|]. rewrite obj_loop_eq in H.
+    destruct (skip_sound bs) as (w & Ebs & Hw). destruct (skip_unused bs) as [|c r]; [discriminate H|].
+    destruct (c =? 125) eqn:E125.
+    - apply N.eqb_eq in E125. subst c. injection H as <- <-. exists w. split; [exact Ebs|left; auto].
+    - destruct (member_sound _ _ _ _ _ (obj_loop_sound_false k) H) as (X & ms & E & Hm & ->).
+      exists (w ++ X). split; [rewrite Ebs, E, <- app_assoc; reflexivity|]. right. exists ms.
+      split; [apply members_prepend; assumption|reflexivity].
+  Qed.
+End LoopSound.
+
+Theorem parse_json_value_sound fuel : SV (parse_json_value fuel).
+Proof.
+  induction fuel as [|f IH]; intros bs v rest H; cbn [parse_json_value] in H; [discriminate H|].
+  destruct (skip_sound bs) as (w & Ebs & Hw). destruct (skip_unused bs) as [|c r]; [discriminate H|].
+  exists w.
+  destruct (c =? 110) eqn:E1.
+  { apply N.eqb_eq in E1. subst c. destruct (expect [117; 108; 108] r) as [r'|] eqn:X; [|discriminate H]. injection H as <- <-.
+    apply expect_sound in X. subst r. exists [110; 117; 108; 108]. repeat split; [exact Ebs|exact Hw|constructor]. }
+  destruct (c =? 116) eqn:E2.
+  { apply N.eqb_eq in E2. subst c. destruct (expect [114; 117; 101] r) as [r'|] eqn:X; [|discriminate H]. injection H as <- <-.
+    apply expect_sound in X. subst r. exists [116; 114; 117; 101]. repeat split; [exact Ebs|exact Hw|constructor]. }
+  destruct (c =? 102) eqn:E3.
+  { apply N.eqb_eq in E3. subst c. destruct (expect [97; 108; 115; 101] r) as [r'|] eqn:X; [|discriminate H]. injection H as <- <-.
+    apply expect_sound in X. subst r. exists [102; 97; 108; 115; 101]. repeat split; [exact Ebs|exact Hw|constructor]. }
+  destruct (is_digit c || (c =? 45)) eqn:E4.
+  { destruct (number_sound _ _ _ H) as (t & n & E & -> & Hn). exists t. rewrite <- E. repeat split; [exact Ebs|exact Hw|apply V_number; exact Hn]. }
+  destruct (c =? 34) eqn:E5.
+  { apply N.eqb_eq in E5. subst c. destruct (parse_json_string r) as [[s r']| |] eqn:P; try discriminate H. cbn [bind] in H. injection H as <- <-.
+    destruct (string_sound _ _ _ P) as (b & -> & Hb & Hu). exists (34 :: b ++ [34]).
+    split; [rewrite Ebs; cbn [app]; rewrite <- app_assoc; reflexivity|]. split; [exact Hw|]. apply V_string. apply Str; assumption. }
+  destruct (c =? 91) eqn:E6.
+  { apply N.eqb_eq in E6. subst c. destruct (arr_loop_sound_true _ IH _ _ _ _ _ H) as (X & -> & [(HX & ->)|(l & Hl & ->)]);
+      exists (91 :: X ++ [93]); (split; [rewrite Ebs; cbn [app]; rewrite <- app_assoc; reflexivity|]); (split; [exact Hw|]).
+    - apply V_empty_array. exact HX.
+    - apply V_array. exact Hl. }
+  destruct (c =? 123) eqn:E7; [|discriminate H].
+  apply N.eqb_eq in E7. subst c. destruct (obj_loop_sound_true _ IH _ _ _ _ _ H) as (X & -> & [(HX & ->)|(ms & Hm & ->)]);
+    exists (123 :: X ++ [125]); (split; [rewrite Ebs; cbn [app]; rewrite <- app_assoc; reflexivity|]); (split; [exact Hw|]).
+  - apply V_empty_object. exact HX.
+  - apply V_object. exact Hm.
+Qed.
+
+(* C02, soundness: whatever the parser accepts is a text of the documented language, and the value is the one it denotes *)
+Theorem grammar_sound bs v : parse_value bs = Ok v -> jtext bs v.
+Proof.
+  unfold parse_value. intros H. destruct (parse_json_value (S (length bs)) bs) as [[v0 rest]| |] eqn:P; try discriminate H.
+  cbn [bind] in H. destruct (skip_sound rest) as (w2 & E2 & H2). destruct (skip_unused rest); [|discriminate H]. injection H as <-.
+  rewrite app_nil_r in E2. subst w2. destruct (parse_json_value_sound _ _ _ _ P) as (w & t & -> & Hw & Hv).
+  apply Elem; assumption.
+Qed.
+
+(* the parser accepts exactly the documented language, with its meaning *)
+Corollary grammar_exact bs v : parse_value bs = Ok v <-> jtext bs v.
+Proof. split; [apply grammar_sound|apply grammar_complete]. Qed.
+(* the meaning of a text is unique *)
+Corollary jtext_functional t v1 v2 : jtext t v1 -> jtext t v2 -> v1 = v2.
+Proof. intros H1 H2. apply grammar_complete in H1. apply grammar_complete in H2. congruence. Qed.
